@@ -121,6 +121,8 @@ def orc_map(a, c, d):
 
 
 def orc_add(a, b):
+    if a.n == 0:
+        return b
     if not a.finite():
         return a if b.n == 0 else ERR     # nothing can follow an infinite sequence, except nothing
     if b.finite() and a.n + b.n >= USIZE:
@@ -128,7 +130,12 @@ def orc_add(a, b):
     if a.items is not None and b.items is not None:
         return L(a.items + b.items)
     n = a.n + b.n if b.finite() else None
-    return L.lazy(n, lambda i: a.at(i) if i < a.n else b.at(i - a.n))
+    if n is None and a.n + getattr(b, "fp", 0) >= USIZE:
+        return ERR                       # capacity: the finite lists concatenated in front of an infinite one
+    r = L.lazy(n, lambda i: a.at(i) if i < a.n else b.at(i - a.n))
+    if n is None:
+        r.fp = a.n + getattr(b, "fp", 0)
+    return r
 
 
 def orc_take(a, k):
@@ -320,6 +327,127 @@ def orc_su(a, c):
     return orc_skip(a, r)
 
 
+
+def o_opt(e):
+    return "(none)" if e is None else f"(some {o_elem(e)})"
+
+
+def orc_nth(a, n, c, limit=400):
+    """n-th element with x < c (negative n: from the end); None if the scan is not decided within `limit`"""
+    if n < 0:
+        if not a.finite():
+            return ERR
+        if a.n > limit:
+            return None
+        left = -n - 1
+        for i in range(a.n - 1, -1, -1):
+            x = a.at(i)
+            if has_bad(x):
+                return ERR
+            if x < c:
+                if left == 0:
+                    return ("v", o_opt(x))
+                left -= 1
+        return ("v", o_opt(None))
+    left, i = n, 0
+    while i < limit:
+        if a.finite() and i >= a.n:
+            return ("v", o_opt(None))
+        x = a.at(i)
+        if has_bad(x):
+            return ERR
+        if x < c:
+            if left == 0:
+                return ("v", o_opt(x))
+            left -= 1
+        i += 1
+    return None
+
+
+def orc_eq(a, b, limit=400):
+    if a.n != b.n:
+        return ("v", o_bool(False))
+    i = 0
+    while i < limit:
+        if a.finite() and i >= a.n:
+            return ("v", o_bool(True))
+        x, y = a.at(i), b.at(i)
+        if has_bad(x) or has_bad(y):
+            return ERR
+        if x != y:
+            return ("v", o_bool(False))
+        i += 1
+    return None
+
+
+def orc_tostack(a):
+    if not a.finite():
+        return ERR
+    xs = a.tolist()
+    if any(has_bad(x) for x in xs):
+        return ERR
+    return ("v", "(stack" + "".join(" " + o_elem(x) for x in reversed(xs)) + ")")
+
+
+def py_str(e):
+    return "(" + ", ".join(py_str(x) for x in e) + ")" if isinstance(e, tuple) else str(e)
+
+
+def o_nested(rows):
+    return "(seq" + "".join(" (seq" + "".join(" " + o_elem(x) for x in r) + ")" for r in rows) + ")"
+
+
+def orc_plain(kind, xs, arg):
+    """oracle-only operations on a small finite list without error elements (Python lists / itertools)"""
+    import itertools
+    n = len(xs)
+    if kind == "contains":
+        return ("v", o_bool(arg in xs))
+    if kind == "countx":
+        return ("v", o_int(xs.count(arg)))
+    if kind == "countp":
+        return ("v", o_int(sum(1 for x in xs if x < arg)))
+    if kind == "all":
+        return ("v", o_bool(all(x < arg for x in xs)))
+    if kind == "any":
+        return ("v", o_bool(any(x < arg for x in xs)))
+    if kind == "sum":
+        return ("v", o_int(sum(xs)))
+    if kind == "tostr":
+        return ("v", '(str "[' + ", ".join(py_str(x) for x in xs) + ']")')
+    if kind == "bisect":
+        return ("v", o_int(sum(1 for x in xs if x < arg)))
+    if kind == "comb":
+        if arg < 0:
+            return ERR
+        if arg > n:
+            return ("alt", [ERR, "(seq)"])        # no such combination: an error value or the empty list
+        return ("v", o_nested(itertools.combinations(xs, arg)))
+    if kind == "combr":
+        if arg < 0:
+            return ERR
+        if n == 0:
+            return ("alt", [ERR, "(seq (seq))" if arg == 0 else "(seq)"])
+        return ("v", o_nested(itertools.combinations_with_replacement(xs, arg)))
+    if kind == "perm":
+        if arg is None:
+            return ("v", o_nested(itertools.permutations(xs)))
+        if arg < 0:
+            return ERR
+        return ("v", o_nested(itertools.permutations(xs, arg)))
+    raise AssertionError(kind)
+
+
+PLAIN_SRC = {
+    "contains": "${k}.contains({a})", "countx": "${k}.count({a})", "countp": "${k}.count((x: int)->{{x < {a}}})",
+    "all": "${k}.all((x: int)->{{x < {a}}})", "any": "${k}.any((x: int)->{{x < {a}}})", "sum": "${k}.sum()",
+    "tostr": "${k}.to_str()", "bisect": "${k}.bisect((x: int)->{{x < {a}}})",
+    "comb": "${k}.combinations({a}).map((s: Sequence<int>)->{{s.to_array()}}).to_array()",
+    "combr": "${k}.combinations_with_replacement({a}).map((s: Sequence<int>)->{{s.to_array()}}).to_array()",
+    "perm": "${k}.permutations({a}).map((s: Sequence<int>)->{{s.to_array()}}).to_array()",
+}
+
+
 # ---------------------------------------------------------------- program generation
 
 EDGE_INTS = [0, 1, -1, 2, 3, 5, 7, -2, -5, 10, I64_MAX, I64_MAX - 1, I64_MIN, I64_MIN + 1, 2**63, -2**63 - 1,
@@ -432,9 +560,13 @@ def gen_op(rng, p):
         ops += ["map", "map", "enum", "push", "rpush", "insert", "insert", "set", "tw", "su"]
     else:
         ops += ["unzip", "unzip"]
-    ops += ["pop", "pop", "pop", "swap", "swap"]
+    ops += ["pop", "pop", "pop", "swap", "swap", "eq", "tostack"]
+    if ty == "I":
+        ops += ["nth", "nth", "plain", "plain", "plain", "plain", "plain"]
+    else:
+        ops += ["tostr"]
     op = rng.choice(ops)
-    copying = op in ("push", "rpush", "insert", "set", "pop", "swap", "toarr")
+    copying = op in ("push", "rpush", "insert", "set", "pop", "swap", "toarr", "tostack", "plain", "tostr")
     if copying and fin and not small:
         op = rng.choice(["take", "skip", "get", "len"])       # do not copy huge sequences
     idx = lambda: pick_index(rng, n if fin else 0, infinite=not fin)
@@ -504,6 +636,58 @@ def gen_op(rng, p):
     if op == "swap":
         i, j = idx(), idx()
         return p.add("swap", [k, i, j], f"${k}.swap({lit(i)}, {lit(j)})", ty, orc_swap(a, i, j))
+    if op == "nth":
+        c = rng.choice([0, 1, 3, 5, 10, -2, 25, 2**63])
+        i = rng.choice([0, 0, -1, -1, 1, 2, -2, 5, -5, 2**64, -2**64]) if rng.random() < 0.8 else idx()
+        o = orc_nth(a, i, c)
+        if o is None:
+            return None
+        pred = f"(x: int)->{{x < {lit(c)}}}"
+        src = f"${k}.nth({lit(i)}, {pred})"
+        if i == 0 and rng.random() < 0.5:
+            src = f"${k}.first({pred})"
+        if i == -1 and rng.random() < 0.5:
+            src = f"${k}.last({pred})"
+        return p.add("nth", [k, i, c, 1000], src, "opt", o)
+    if op == "eq":
+        same = [j for j in cands if p.nodes[j].ty == ty]
+        j = rng.choice(same)
+        if rng.random() < 0.5:
+            k, j = j, k
+        o = orc_eq(p.nodes[k].orc, p.nodes[j].orc)
+        if o is None:
+            return None
+        return p.add("eq", [k, j, 1000], f"${k} == ${j}", "bool", o)
+    if op == "tostack":
+        return p.add("tostack", [k], f"${k}.to_stack()", "stack", orc_tostack(a))
+    if op in ("plain", "tostr"):
+        # operations outside the model (xray code over generators, dynamic functions): implementation vs oracle only
+        if not fin or a.n > 12:
+            return None
+        xs = a.tolist()
+        if any(has_bad(x) for x in xs):
+            return None
+        kind = "tostr" if op == "tostr" else rng.choice(["contains", "countx", "countp", "all", "any", "sum", "tostr", "bisect",
+                                                         "comb", "combr", "perm", "perm"])
+        arg = None
+        if kind in ("contains", "countx"):
+            arg = rng.choice(xs + [7, -1]) if xs else 7
+        elif kind in ("countp", "all", "any", "bisect"):
+            arg = rng.choice([0, 1, 3, 5, 10, -2, 25, 2**63])
+            if kind == "bisect" and [x < arg for x in xs] != sorted([x < arg for x in xs], reverse=True):
+                return None          # bisect is specified for partitioned sequences only
+        elif kind in ("comb", "combr", "perm"):
+            if a.n > 5:
+                return None
+            arg = rng.choice([0, 1, 2, 3, a.n, a.n + 1, -1, a.n - 1])
+            if kind == "combr" and arg > 4:
+                return None
+            if kind == "perm" and rng.random() < 0.3:
+                arg = None
+        src = PLAIN_SRC[kind].replace("${k}", f"${k}").replace("{a}", "" if arg is None else lit(arg)).replace("{{", "{").replace("}}", "}")
+        n_ = p.add("opaque", [], src, "plain", orc_plain(kind, xs, arg))
+        p.nodes[n_].phase = kind
+        return n_
     if op in ("tw", "su"):
         c = rng.choice([0, 1, 3, 5, 10, -2, 25, 2**63])
         if orc_scan(a, c, op == "su") is None:
@@ -528,7 +712,7 @@ def gen_program(rng, n_ops):
         if k is None:
             continue
         made += 1
-        if p.nodes[k].usable and p.nodes[k].ty not in ("int", "bool", "elem"):
+        if p.nodes[k].usable and p.nodes[k].ty not in ("int", "bool", "elem", "opt", "stack", "plain"):
             observe(p, k, "new")
     # persistence: observe every sequence node again after all operations have run
     for k in [k for k, n in enumerate(p.nodes) if n.usable and n.obs_of is None]:
@@ -641,7 +825,7 @@ def compare(chk, p, impl, model):
         d, m = canon_impl(impl[k]), canon_model(model[k])
         exp = expected(node.orc)
         tagop = node.op + (":unchanged" if node.phase == "final" else "")
-        chk.count("op:" + node.op)
+        chk.count("op:" + (node.op if node.op != "opaque" else "plain:" + node.phase))
         if exp is None and isinstance(node.orc, L) and d.startswith("(seq") and node.orc.finite() and node.orc.n <= 4096:
             exp = [node.orc.dump()]
         if exp is not None:
@@ -658,6 +842,8 @@ def compare(chk, p, impl, model):
                 chk.violation(f"lang:{tagop}:wrong", f"`{node.src.replace('$', 'v')}` evaluates to {impl[k][:300]}; a sequence was expected",
                               replay_of(p, k))
                 continue
+        if node.op == "opaque":
+            continue          # outside the model: implementation vs oracle only
         if m != d:
             if lazy_tag(d) and lazy_tag(m):
                 chk.violation(f"tie:repr:{node.op}", f"representation differs for `{node.src.replace('$', 'v')}`: impl {impl[k]} model {model[k]}",
@@ -680,7 +866,13 @@ CORPUS = [
     [("range", [I64_MIN, I64_MAX]), ("len", [0]), ("add", [0, 0]), ("arr", [1]), ("add", [0, 3]), ("len", [4])],
     [("range", [10, 0, I64_MIN]), ("len", [0]), ("toarr", [0])],
     [("count", []), ("skip", [0, 2**64 - 1]), ("get", [1, 1]), ("skip", [1, 1]), ("get", [3, 0]), ("get", [1, 0])],
+    [("range", [-I64_MAX, 3]), ("count", []), ("add", [0, 1]), ("add", [0, 2]), ("arr", [1]), ("add", [4, 2]), ("len", [5])],
     [("arr", [1, 2, 3]), ("insert", [0, 3, 9]), ("range", [0]), ("insert", [2, 0, 9]), ("insert", [0, 4, 9]), ("insert", [0, -4, 9])],
+    # zip evaluates every argument before the emptiness shortcut (an erroring later argument is not swallowed)
+    [("range", [0]), ("arr", [1]), ("take", [1, -1]), ("zip", [0, 2]), ("zip", [0, 1, 2]), ("zip", [0, 1])],
+    # combinations of nothing, combinations with replacement longer than the source
+    [("arr", [1, 2, 3]), ("plain:comb", [0, 0]), ("plain:combr", [0, 0]), ("arr", [1, 2]), ("plain:combr", [3, 3]), ("range", [0]),
+     ("plain:comb", [5, 0]), ("plain:perm", [0, None]), ("plain:perm", [5, None])],
 ]
 
 
@@ -697,7 +889,11 @@ def corpus_program(ops):
             k = args[0]
             a = p.nodes[k].orc
             ty = p.nodes[k].ty
-            if not isinstance(a, L):
+            if op == "zip":
+                os_ = [p.nodes[j].orc for j in args]
+                p.add(op, args, "zip(" + ", ".join(f"${j}" for j in args) + ")", f"P{len(args)}",
+                      orc_zip(os_) if all(isinstance(o, L) for o in os_) else ERR)
+            elif not isinstance(a, L):
                 p.add(op, args, {"len": f"${k}.len()", "get": f"${k}[{lit(args[-1])}]"}.get(op, f"${k}.{op}()"), ty, ERR)
             elif op == "pop":
                 p.add(op, args, f"${k}.pop({lit(args[1])})", ty, orc_pop(a, args[1]))
@@ -714,6 +910,17 @@ def corpus_program(ops):
                 p.add(op, args, f"${k}[{lit(args[1])}]", "elem", orc_get(a, args[1]))
             elif op == "insert":
                 p.add(op, args, f"${k}.insert({lit(args[1])}, {lit(args[2])})", ty, orc_insert(a, args[1], args[2]))
+            elif op == "take":
+                p.add(op, args, f"${k}.take({lit(args[1])})", ty, orc_take(a, args[1]))
+            elif op == "zip":
+                os_ = [p.nodes[j].orc for j in args]
+                p.add(op, args, "zip(" + ", ".join(f"${j}" for j in args) + ")", f"P{len(args)}",
+                      orc_zip(os_) if all(isinstance(o, L) for o in os_) else ERR)
+            elif op.startswith("plain:"):
+                kind = op[6:]
+                src = PLAIN_SRC[kind].replace("${k}", f"${k}").replace("{a}", "" if args[1] is None else lit(args[1])).replace("{{", "{").replace("}}", "}")
+                n_ = p.add("opaque", [], src, "plain", orc_plain(kind, a.tolist(), args[1]))
+                p.nodes[n_].phase = kind
     return p
 
 
@@ -732,7 +939,7 @@ def run(chk):
         handle_broken(chk)
 
     progs = [corpus_program(c) for c in CORPUS]
-    n_prog = 700 if quick else 60000
+    n_prog = 1000 if quick else 60000
     for i in range(n_prog):
         if quick:
             n_ops = rng.choice([1, 2, 3, 4, 5, 6])
